@@ -114,27 +114,42 @@ static void sub_solve() {
 //---------------------------------------------------------------------------
 // pmis / coarsenings alone
 //---------------------------------------------------------------------------
+// Smallest aggregate (number of unknowns) that mpi::coarsening::pmis forms for (A, eps, block size) -- the aggregates do not depend on the
+// near-null-space vectors, so this is computed with none.  Collective.
+static long smallest_aggregate(const DM &A, double eps, int b, long cap) {
+    World &w = world(); mpi::coarsening::pmis<B>::params p0; p0.eps_strong = eps; p0.block_size = b; mpi::coarsening::pmis<B> a0(A, p0); auto &P0 = *a0.p_tent;
+    std::vector<long> cnt(P0.glob_cols() / b + 1, 0), gc(P0.glob_cols() / b + 1, 0);
+    for (auto part : {P0.local(), P0.remote()}) for (size_t i = 0; i < part->nrows; ++i) for (auto j = part->ptr[i]; j < part->ptr[i + 1]; ++j) cnt[(part->col[j] + (part == P0.local() ? P0.loc_col_shift() : 0)) / b]++;
+    MPI_Allreduce(cnt.data(), gc.data(), (int)cnt.size(), MPI_LONG, MPI_SUM, w.comm); long mn = cap; for (size_t a = 0; a + 1 < gc.size(); ++a) mn = std::min(mn, gc[a]); return mn;
+}
+
 // (the number of near-null-space vectors is capped per case by the size of the smallest aggregate, see below)
 // sub "pmis": block size 1 with 0..3 near-null-space vectors, or block size 2..3 without near-null space;
 // sub "pmis_bk": block size 2..3 together with 1..3 near-null-space vectors (kept apart: on this tree the column
 // numbering of that combination is wrong, the library then crashes and would take the other cases with it)
 static void sub_pmis(const std::string &sub) {
-    World &w = world(); mpi::communicator comm(w.comm); const bool bk = sub == "pmis_bk";
-    long N = bk ? vf::opt_int("pmis_bk_cases", vf::tier(8, 60)) : vf::opt_int("pmis_cases", vf::tier(16, 120));
+    World &w = world(); mpi::communicator comm(w.comm); const bool bk = sub == "pmis_bk", small = sub == "pmis_small_aggr";
+    // sub "pmis_small_aggr" (own mpi-asan jobs only): the input class "more near-null-space vectors than the smallest aggregate has unknowns".
+    // The vectors cannot be reproduced there; what is monitored is memory safety of the call (on this tree: QR::R reads past its buffer).
+    long N = small ? vf::opt_int("small_cases", 3) : bk ? vf::opt_int("pmis_bk_cases", vf::tier(8, 60)) : vf::opt_int("pmis_cases", vf::tier(16, 120));
     for (long idx = 0; idx < N; ++idx) {
         if (!vf::selected(sub, idx)) continue;
         uint64_t cs = vf::case_seed(sub, idx * 16 + w.size); Rng r(cs); vfm::seed_delays(cs, w.rank);
         int b = idx % 3 == 2 ? (int)r.range(2, 3) : 1; int K = (int)r.range(0, 3); if (idx % 5 == 0) K = 0;
         if (bk) { b = (int)r.range(2, 3); K = (int)r.range(1, 3); } else if (b > 1) K = 0;
+        if (small) { b = 1; K = 3; }
         Problem p = make_problem(r, 40, idx % 4 == 0 ? 120 : 500);
         // isolate a few vertices (diagonal-only rows and columns)
         Csr<double> A0 = p.A; bool iso = r.coin(0.5); std::set<long> isolated;
         if (iso) { long cnt = r.range(1, std::max<long>(1, A0.n / 15)); for (long q = 0; q < cnt; ++q) isolated.insert(r.range(0, A0.n - 1));
             Csr<double> T(A0.n, A0.n); for (size_t i = 0; i < A0.n; ++i) { for (auto j = A0.ptr[i]; j < A0.ptr[i + 1]; ++j) if ((size_t)A0.col[j] == i || (!isolated.count(i) && !isolated.count(A0.col[j]))) T.push(A0.col[j], A0.val[j]); T.end_row(); } A0 = T; validate_spd_mmatrix(A0); }
         Csr<double> G = b == 1 ? A0 : vf::kron(A0, r.coin() ? vf::identity_block(b) : vf::spd_block(b, r), b);
-        long n = G.n; Part rp = vfm::random_part(n, w.size, r, b); double eps = r.coin(0.7) ? 0.08 : r.uni(0.02, 0.3);
+        long n = G.n; Part rp = vfm::random_part(n, w.size, r, b); double eps = r.coin(0.7) ? 0.08 : r.uni(0.02, 0.3); if (small) eps = r.uni(0.2, 0.4);
+        long smallest = -1;
+        if (small) { Csr<double> S0 = vfm::slice_rows(G, rp[w.rank], rp[w.rank + 1]); size_t n0 = S0.n; DM A0d(comm, std::tie(n0, S0.ptr, S0.col, S0.val), n0); smallest = smallest_aggregate(A0d, eps, b, 4);
+            if (smallest >= 3 || smallest < 1) { vf::obs_sum("small_aggr_cases_outside_the_class"); continue; } K = (int)smallest + 1; }
         std::vector<double> Bf((size_t)n * K); for (long i = 0; i < n; ++i) for (int q = 0; q < K; ++q) Bf[i * K + q] = q == 0 ? 1.0 : r.uni(-1, 1);
-        Case c(sub, idx, J().n("ranks", w.size).s("family", p.family).n("n", n).n("block_size", b).n("nullspace_cols", K).n("isolated", isolated.size()).n("eps_strong", eps).s("rows", vfm::part_str(rp)));
+        Case c(sub, idx, J().n("ranks", w.size).s("family", p.family).n("n", n).n("block_size", b).n("nullspace_cols", K).n("smallest_aggregate", smallest).n("isolated", isolated.size()).n("eps_strong", eps).s("rows", vfm::part_str(rp)));
         Csr<double> S = vfm::slice_rows(G, rp[w.rank], rp[w.rank + 1]); size_t nloc = S.n;
         Bag bag(w.comm); std::vector<double> Bc_loc; long pcols = 0, pshift = 0; bool threw = false, malformed = false; const int Kreq = K; std::string tag;
         try {
@@ -142,10 +157,7 @@ static void sub_pmis(const std::string &sub) {
             // Precondition of the near-null-space clause: an aggregate with fewer unknowns than vectors cannot reproduce them (and the
             // library's QR then reads past its buffer, in the serial tentative_prolongation as well).  The aggregates do not depend on the
             // vectors, so they are computed once without them and the number of vectors is capped by the smallest aggregate.
-            if (K) { mpi::coarsening::pmis<B>::params p0; p0.eps_strong = eps; p0.block_size = b; mpi::coarsening::pmis<B> a0(A, p0); auto &P0 = *a0.p_tent;
-                std::vector<long> cnt(P0.glob_cols() / b + 1, 0), gc(P0.glob_cols() / b + 1, 0);
-                for (auto part : {P0.local(), P0.remote()}) for (size_t i = 0; i < part->nrows; ++i) for (auto j = part->ptr[i]; j < part->ptr[i + 1]; ++j) cnt[(part->col[j] + (part == P0.local() ? P0.loc_col_shift() : 0)) / b]++;
-                MPI_Allreduce(cnt.data(), gc.data(), (int)cnt.size(), MPI_LONG, MPI_SUM, w.comm); long mn = K; for (size_t a = 0; a + 1 < gc.size(); ++a) mn = std::min(mn, gc[a]);
+            if (K && !small) { long mn = smallest_aggregate(A, eps, b, K);
                 if (mn < K) { vf::obs_sum("nullspace_vectors_capped_by_small_aggregate"); K = (int)mn; std::vector<double> B2((size_t)n * K); for (long i = 0; i < n; ++i) for (int q = 0; q < K; ++q) B2[i * K + q] = Bf[i * Kreq + q]; Bf.swap(B2); } }
             tag = "b" + std::string(b > 1 ? ">1" : "=1") + ":K" + (K ? ">0" : "=0");
             mpi::coarsening::pmis<B>::params prm; prm.eps_strong = eps; prm.block_size = b; prm.nullspace.cols = K; prm.nullspace.B.assign(Bf.begin() + rp[w.rank] * K, Bf.begin() + rp[w.rank + 1] * K);
@@ -234,6 +246,8 @@ int main(int argc, char **argv) {
     if (vf::sub_enabled("solve")) sub_solve();
     if (vf::sub_enabled("pmis")) sub_pmis("pmis");
     if (vf::sub_enabled("pmis_bk")) sub_pmis("pmis_bk");
+    // only when named explicitly (--sub pmis_small_aggr / replay): aborts under ASan on this tree
+    if (vf::sub_enabled("pmis_small_aggr") && (!vf::ctx().subs.empty() || !vf::ctx().only_sub.empty())) sub_pmis("pmis_small_aggr");
     if (vf::sub_enabled("direct")) sub_direct();
     if (world().rank == 0) { vf::obs_sum("delay_hook_calls", (double)vfm::delay_state().calls); vf::obs_sum("delays_injected", (double)vfm::delay_state().slept); }
     return vf::finish();
